@@ -17,6 +17,10 @@ open SgVerif.C24 (Lk)
 
 theorem U64_eq : U64 = ULONG_MAX + 1 := by rfl
 
+theorem now_guard : DVar.now.guard = true := rfl
+theorem now_hop : DVar.now.hop = true := rfl
+theorem insertFront_now (acc l : List Lk) : insertFront DVar.now acc l = l ++ acc := by simp [insertFront, now_hop]
+
 /- ---------------------------------------------------------------- lists -/
 
 theorem getD_set_self (l : List Nat) (i a : Nat) (h : i < l.length) : (l.set i a).getD i 0 = a := by
@@ -368,6 +372,50 @@ theorem DCore.setQueue {g : DGraph} {M src : Nat} {st : DState} (h : DCore g M s
     DCore g M src { st with queue := q } :=
   ⟨h.lenC, h.lenP, h.src0, h.bnd, h.tree, h.unre⟩
 
+theorem mem_outEdges (g : DGraph) (v : Nat) (e : DEdge) : e ∈ g.outEdges v ↔ e ∈ g.edges ∧ e.src = v := by
+  simp only [DGraph.outEdges, List.mem_filter, decide_eq_true_eq]
+
+/-- a popped entry whose node has cost ULONG_MAX: `continue` -/
+theorem DInv.skip {g : DGraph} {M src : Nat} {st : DState} (hinv : DInv g M src st) (k v : Nat)
+    (rest : List (Nat × Nat)) (hp : popMin st.queue = some ((k, v), rest)) (hinf : st.c v = ULONG_MAX) :
+    DInv g M src { st with queue := rest } := by
+  obtain ⟨p1, p2, p3, _⟩ := popMin_spec _ _ _ hp
+  refine ⟨hinv.core.setQueue rest, ?_, fun q hq => hinv.qb q (p3 q hq)⟩
+  intro x hx _ hfx
+  rcases hinv.clean x hx trivial hfx with hl | ⟨k', hk'⟩
+  · exact Or.inl hl
+  · right
+    rcases p2 (k', x) hk' with h' | h'
+    · injection h' with _ h''; exact absurd (h'' ▸ hinf) hfx
+    · exact ⟨k', h'⟩
+
+/-- a popped entry whose node has a finite cost: all its out-edges are relaxed -/
+theorem DInv.process {g : DGraph} {M src : Nat} {st : DState} (hinv : DInv g M src st) (hg : GraphOK g)
+    (ho : NoOverflow g M) (k v : Nat) (rest : List (Nat × Nat)) (hp : popMin st.queue = some ((k, v), rest))
+    (hfin : st.c v ≠ ULONG_MAX) : DInv g M src (relaxEdges v { st with queue := rest } (g.outEdges v)) := by
+  obtain ⟨p1, p2, p3, _⟩ := popMin_spec _ _ _ hp
+  have hv : v < g.nodes.length := hinv.qb (k, v) p1
+  have hcore1 : DCore g M src { st with queue := rest } := hinv.core.setQueue rest
+  have hqb1 : ∀ q ∈ rest, q.2 < g.nodes.length := fun q hq => hinv.qb q (p3 q hq)
+  have hcl1 : Clean g { st with queue := rest } fun x => x ≠ v := by
+    intro x hx hxv hfx
+    rcases hinv.clean x hx trivial hfx with hl | ⟨k', hk'⟩
+    · exact Or.inl hl
+    · right
+      rcases p2 (k', x) hk' with h' | h'
+      · injection h' with _ h''; exact absurd h'' hxv
+      · exact ⟨k', h'⟩
+  obtain ⟨r1, r2, r3, r4, r5, r6⟩ := relaxEdges_spec g M src v hg ho hv (fun x => x ≠ v) (g.outEdges v)
+    { st with queue := rest } (fun e he => (mem_outEdges g v e).mp he) hcore1 hfin hcl1 hqb1
+  refine ⟨r1, ?_, r3⟩
+  intro x hx _ hfx
+  by_cases hxv : x = v
+  · left
+    intro e he hs
+    rw [hxv, r4]
+    exact r6 e ((mem_outEdges g v e).mpr ⟨he, hxv ▸ hs⟩)
+  · exact r2 x hx hxv hfx
+
 /-- **the `while (not pqueue.empty())` loop keeps the invariant and ends with an empty queue** (any fuel) -/
 theorem dijkstraLoop_spec (g : DGraph) (M src : Nat) (hg : GraphOK g) (ho : NoOverflow g M) :
     ∀ (f : Nat) (st st' : DState), DInv g M src st → dijkstraLoop DVar.now g f st = some st' →
@@ -387,41 +435,12 @@ theorem dijkstraLoop_spec (g : DGraph) (M src : Nat) (hg : GraphOK g) (ho : NoOv
     | some mr =>
       obtain ⟨⟨k, v⟩, rest⟩ := mr
       rw [hp] at h
-      simp only [DVar.now, fixedUnreachableGuard, Bool.true_and, decide_eq_true_eq] at h
-      obtain ⟨p1, p2, p3, _⟩ := popMin_spec _ _ _ hp
-      have hv : v < g.nodes.length := hinv.qb (k, v) p1
-      have hcore1 : DCore g M src { st with queue := rest } := hinv.core.setQueue rest
-      have hqb1 : ∀ q ∈ rest, q.2 < g.nodes.length := fun q hq => hinv.qb q (p3 q hq)
-      -- every finite node other than v is still clean or queued
-      have hcl1 : Clean g { st with queue := rest } fun x => x ≠ v := by
-        intro x hx hxv hfx
-        rcases hinv.clean x hx trivial hfx with hl | ⟨k', hk'⟩
-        · exact Or.inl hl
-        · right
-          rcases p2 (k', x) hk' with h' | h'
-          · injection h' with _ h''; exact absurd h'' hxv
-          · exact ⟨k', h'⟩
+      simp only [now_guard, Bool.true_and, decide_eq_true_eq] at h
       split at h
-      · -- cost_arr[v] == ULONG_MAX: continue
-        rename_i hinf
-        refine ih _ st' ⟨hcore1, ?_, hqb1⟩ h
-        intro x hx _ hfx
-        exact hcl1 x hx (fun e' => hfx (by rw [e']; exact hinf)) hfx
+      · rename_i hinf
+        exact ih _ st' (hinv.skip k v rest hp hinf) h
       · rename_i hfin
-        have hes : ∀ e ∈ g.outEdges v, e ∈ g.edges ∧ e.src = v := by
-          intro e he
-          simp only [DGraph.outEdges, List.mem_filter, decide_eq_true_eq] at he
-          exact he
-        obtain ⟨r1, r2, r3, r4, r5, r6⟩ := relaxEdges_spec g M src v hg ho hv (fun x => x ≠ v) (g.outEdges v)
-          { st with queue := rest } hes hcore1 hfin hcl1 hqb1
-        refine ih _ st' ⟨r1, ?_, r3⟩ h
-        intro x hx _ hfx
-        by_cases hxv : x = v
-        · left
-          intro e he hs
-          rw [hxv, r4]
-          exact r6 e (by simp only [DGraph.outEdges, List.mem_filter, decide_eq_true_eq]; exact ⟨he, hxv ▸ hs⟩)
-        · exact r2 x hx hxv hfx
+        exact ih _ st' (hinv.process hg ho k v rest hp hfin) h
 
 /- ---------------------------------------------------------------- initialisation -/
 
@@ -536,10 +555,6 @@ theorem DFinal.tree_eq {g : DGraph} {M src : Nat} {st : DState} (h : DFinal g M 
   have := h.relaxed e he (by rw [hs]; exact h2)
   rw [hs, hd] at this
   omega
-
-theorem now_guard : DVar.now.guard = true := rfl
-theorem now_hop : DVar.now.hop = true := rfl
-theorem insertFront_now (acc l : List Lk) : insertFront DVar.now acc l = l ++ acc := by simp [insertFront, now_hop]
 
 theorem nodup_bound' (n : Nat) (l : List Nat) (hd : l.Nodup) (hb : ∀ x ∈ l, x < n) : l.length ≤ n := by
   have := List.Nodup.length_le_of_subset hd (l₂ := List.range n) (fun x hx => List.mem_range.mpr (hb x hx))
